@@ -147,11 +147,11 @@ func init() {
 			"one ONCE call site per query; no LIMIT; function errors under ASYNC belong to C10/C19; SPIN completion before return is not required (only 'adds no column')",
 			"ASYNC calls appear as direct select-list items (the README rules out ASYNC inside FROM clauses)",
 		},
-		Floor:         []string{"q.plain", "q.async", "q.spinasync", "q.spin", "q.once", "q.await-async", "star", "where", "nested", "shape.union", "shape.cte", "arg.null", "lat.zero", "lat.yield", "lat.random", "lat.skewed", "lat.straggler", "table.empty", "imm.async", "imm.spin", "imm.spinasync", "imm.harness"},
+		Floor:         []string{"q.plain", "q.async", "q.spinasync", "q.spin", "q.once", "q.await-async", "star", "where", "nested", "shape.union", "shape.cte", "arg.null", "page", "page.empty", "lat.zero", "lat.yield", "lat.random", "lat.skewed", "lat.straggler", "table.empty", "imm.async", "imm.spin", "imm.spinasync", "imm.harness", "imm.harness-mixedcase"},
 		MinNontrivial: 30,
 		Phases: []fw.Phase{
 			{Name: "ledger", N: func(t fw.Tier) int { return pick(t, 2500, 40000) }, Run: func(c *fw.Case) { c14Ledger(c, false) }},
-			{Name: "immediate", N: func(t fw.Tier) int { return 18 * 3 }, Run: c14Immediate},
+			{Name: "immediate", N: func(t fw.Tier) int { return len(c14Immediates) * 3 }, Run: c14Immediate},
 			{Name: "race", Race: true, N: func(t fw.Tier) int { return pick(t, 300, 5000) }, Run: func(c *fw.Case) { c14Ledger(c, true) }},
 		},
 		Witness: sqlWitness,
@@ -199,7 +199,7 @@ func c14Ledger(c *fw.Case, race bool) {
 	}
 	t := gen.RandTable(c.R, gen.TableSpec{Name: "t1", MaxRows: 12, NumCols: 2, StrCols: 1, BoolCols: 1, NullCols: 1, StrStyle: gen.Plain})
 	force := ""
-	forced := []string{"q.plain", "q.async", "q.spinasync", "q.spin", "q.once", "q.await-async", "star", "where", "nested", "table.empty", "shape.union", "shape.cte", "arg.null"}
+	forced := []string{"q.plain", "q.async", "q.spinasync", "q.spin", "q.once", "q.await-async", "star", "where", "nested", "table.empty", "shape.union", "shape.cte", "arg.null", "page", "page.empty"}
 	if c.Idx < 3*len(forced) {
 		force = forced[c.Idx%len(forced)]
 	}
@@ -222,6 +222,10 @@ func c14Ledger(c *fw.Case, race bool) {
 	if shape == "union" {
 		mult = 2
 	}
+	// a LIMIT/OFFSET page: the background calls of every row that reached the
+	// select list are complete at return, whatever the page keeps
+	page := force == "page" || force == "page.empty" || (force == "" && !nested && shape == "" && c.Chance(0.2))
+	pageLim, pageOff := 0, 0
 	if shape != "" {
 		feats = append(feats, "shape."+shape)
 	}
@@ -246,6 +250,9 @@ func c14Ledger(c *fw.Case, race bool) {
 		q := gen.Pick(c.R, quals)
 		if i == 0 && strings.HasPrefix(force, "q.") {
 			q = map[string]string{"q.plain": "", "q.async": "ASYNC", "q.spinasync": "SPINASYNC", "q.spin": "SPIN", "q.once": "ONCE", "q.await-async": "AWAIT-ASYNC"}[force]
+		}
+		if page && q == "SPIN" {
+			q = "SPINASYNC"
 		}
 		if q == "ONCE" {
 			if usedOnce || nested || shape == "union" {
@@ -324,6 +331,9 @@ func c14Ledger(c *fw.Case, race bool) {
 		if where != nil {
 			sql += " WHERE " + gen.RenderPred(where, gen.RenderOpts{})
 		}
+		if page {
+			sql += fmt.Sprintf(" LIMIT %d OFFSET %d", pageLim, pageOff)
+		}
 		switch shape {
 		case "union":
 			sql = sql + " UNION ALL " + sql
@@ -338,7 +348,6 @@ func c14Ledger(c *fw.Case, race bool) {
 	if nested {
 		feats = append(feats, "nested")
 	}
-	sql := render(false)
 	// reference
 	type unit struct {
 		id  int32
@@ -358,6 +367,27 @@ func c14Ledger(c *fw.Case, race bool) {
 		}
 		kept = append(kept, row)
 	}
+	if page {
+		nk := len(kept)
+		switch {
+		case force == "page.empty" || c.Chance(0.5):
+			switch c.Intn(4) {
+			case 0:
+				pageLim, pageOff = 0, 0
+			case 1:
+				pageLim, pageOff = 3, nk
+			case 2:
+				pageLim, pageOff = 1, nk+2
+			default:
+				pageLim, pageOff = 0, 1
+			}
+			feats = append(feats, "page.empty")
+		default:
+			pageLim, pageOff = 1+c.Intn(nk+1), c.Intn(nk+1)
+		}
+		feats = append(feats, "page")
+	}
+	sql := render(false)
 	var units []unit // the (row) identities at which calls happen
 	for _, row := range kept {
 		if nested {
@@ -436,6 +466,17 @@ func c14Ledger(c *fw.Case, race bool) {
 		want = append(append([]any{}, want...), want...)
 		expectedCalls *= 2
 	}
+	inPage := func(ui int) bool { return !page || ui >= pageOff && ui < pageOff+pageLim }
+	if page {
+		if pageOff >= len(want) {
+			want = nil
+		} else {
+			want = want[pageOff:]
+			if pageLim < len(want) {
+				want = want[:pageLim]
+			}
+		}
+	}
 	profiles := c14Profiles
 	nprof := pick(c.Tier, 3, 12)
 	doc := DocOf(t)
@@ -490,6 +531,16 @@ func c14Ledger(c *fw.Case, race bool) {
 				k := [2]int32{it.site, u.id}
 				switch it.qual {
 				case "ASYNC", "SPINASYNC", "", "AWAIT-ASYNC":
+					if !inPage(ui) {
+						// a row the page drops: whatever was started for it is complete at return
+						if starts[k] != ends[k] || lateStart+lateEnd > 0 {
+							det["ledger"] = fmt.Sprintf("site %d row %d (outside the page): %d call-start, %d call-end before exec-return; %d starts and %d ends after it", it.site, u.id, starts[k], ends[k], lateStart, lateEnd)
+							waitLedgerQuiet()
+							c.Violate("invocation", fmt.Sprintf("%s call (site %d) on row %d, which the LIMIT/OFFSET page drops, was still running when Exec returned", orPlain(it.qual), it.site, u.id), det)
+							return
+						}
+						continue
+					}
 					if starts[k] != mult || ends[k] != mult {
 						det["ledger"] = fmt.Sprintf("site %d row %d: %d call-start, %d call-end before exec-return (late starts %d, late ends %d)", it.site, u.id, starts[k], ends[k], lateStart, lateEnd)
 						waitLedgerQuiet()
@@ -576,13 +627,13 @@ func waitCalls(base int64, expected int) {
 	}
 }
 
-var c14Immediates = []string{"SUM", "AVG", "MIN", "MAX", "COUNT", "FUSE", "DATERANGE", "CONSTANT", "GETVAR", "SETVAR", "RAISE", "RAISE_WHEN", "REPORT", "REPORT_WHEN", "TIMESTAMP", "TO_LOWER", "TO_UPPER", "VIMM"}
+var c14Immediates = []string{"SUM", "AVG", "MIN", "MAX", "COUNT", "FUSE", "DATERANGE", "CONSTANT", "GETVAR", "SETVAR", "RAISE", "RAISE_WHEN", "REPORT", "REPORT_WHEN", "TIMESTAMP", "TO_LOWER", "TO_UPPER", "VIMM", "VImmMixed", "vimmmixed"}
 
 func c14Immediate(c *fw.Case) {
 	fn := c14Immediates[c.Idx%len(c14Immediates)]
 	q := []string{"ASYNC", "SPIN", "SPINASYNC"}[(c.Idx/len(c14Immediates))%3]
 	args := map[string]string{"SUM": "n1", "AVG": "n1", "MIN": "n1", "MAX": "n1", "COUNT": "n1", "FUSE": "obj", "DATERANGE": "'a', 'b'", "CONSTANT": "'c1'", "GETVAR": "'k'", "SETVAR": "'k', 1",
-		"RAISE": "'x'", "RAISE_WHEN": "false, 'x'", "REPORT": "'x'", "REPORT_WHEN": "false, 'x'", "TIMESTAMP": "", "TO_LOWER": "s1", "TO_UPPER": "s1", "VIMM": "n1"}[fn]
+		"RAISE": "'x'", "RAISE_WHEN": "false, 'x'", "REPORT": "'x'", "REPORT_WHEN": "false, 'x'", "TIMESTAMP": "", "TO_LOWER": "s1", "TO_UPPER": "s1", "VIMM": "n1", "VImmMixed": "n1", "vimmmixed": "n1"}[fn]
 	sql := fmt.Sprintf("SELECT rid, %s.%s(%s) AS v FROM t1", q, fn, args)
 	doc := map[string]any{"t1": []any{map[string]any{"rid": 0.0, "n1": 1.0, "s1": "a", "obj": map[string]any{"k": 1.0}}, map[string]any{"rid": 1.0, "n1": 2.0, "s1": "b", "obj": map[string]any{"k": 2.0}}}}
 	armFault(0, faultNone)
@@ -590,6 +641,9 @@ func c14Immediate(c *fw.Case) {
 	c.Feature("imm." + strings.ToLower(q))
 	if fn == "VIMM" {
 		c.Feature("imm.harness")
+	}
+	if fn == "VImmMixed" || fn == "vimmmixed" {
+		c.Feature("imm.harness-mixedcase")
 	}
 	c.Sample(map[string]any{"sql": sql, "outcome": short(fmt.Sprint(o.Describe()), 160)})
 	det := map[string]any{"sql": sql, "doc": doc, "observed": o.Describe()}
